@@ -97,6 +97,7 @@ def run(ck):
     S = net.structs(ck.prog)
     cls = S["FrameQueueFrag"]
     f = ck.prog.method(cls, "enqueue")
+    base_enqueue = ck.prog.method(S["FrameQueue"], "enqueue")
     qf, cf = net.queue_field(ck.prog), net.cache_field(ck.prog)
     sentinel_real = may_be_none(ck, "from_node")
     nsc = 0
@@ -107,7 +108,7 @@ def run(ck):
             nsc += 1
             st = State()
             pins = {"from_node": Const(None)} if cache_from == "none" else None
-            q = net.sym_queue(st, ck.prog, "FrameQueueFrag", nframes=0, max_size=6, cache_pins=pins)
+            q = net.sym_queue(st, ck.prog, "FrameQueueFrag", nframes=(1 if kind == "LAST" else 0), max_size=(None if kind == "LAST" else 6), cache_pins=pins)
             cache = st.heap[q.ident].fields[cf]
             frame = net.sym_frame(st, ck.prog, "frame", {"message_type": typ})
             outs, it = net.run(ck, f, cls, q, [frame], st)
@@ -150,6 +151,10 @@ def run(ck):
                 if kind == "user":
                     agg.add("R06.5", f, "unfragmented frames bypass the cache", not sp, "%s: cache modified" % label)
                     continue
+                base_enq = [e_ for e_ in out.trace if e_.kind == "enter" and e_.data == base_enqueue.qualname]
+                if kind == "LAST" and sp and base_enq and cache_from == "int":
+                    # the message is complete (handed to the base queue) - accepted or refused (queue full / duplicate)
+                    completed_states.append((out.state, q, frame, bool(dl)))
                 if not sp and not dl:
                     agg.add("R06.5", f, "a dropped fragment is reported as not stored", value_matches(out.value, False), "%s: nothing spliced or delivered but returns %r" % (label, out.value))
                     continue
@@ -183,7 +188,8 @@ def run(ck):
                     okb = len(tags) == 2 and tags[0] == ("sym", "cache.message") and (tags[1] == ("sym", "frame.message") or (tags[1][0] == "slice" and tags[1][1] == ("sym", "frame.message") and tags[1][2] == 0))
                     agg.add("R06.7", f, "spliced bytes are cache + fragment in that order, the whole fragment", okb, "%s: cached message becomes %r" % (label, tags))
                 if kind == "LAST":
-                    agg.add("R06.7", f, "a matching LAST fragment delivers the message", len(dl) == 1, "%s: %d deliveries" % (label, len(dl)))
+                    refused = not dl and bool(base_enq) and value_matches(out.value, False)
+                    agg.add("R06.7", f, "a matching LAST fragment delivers the message (unless the queue refuses it: full / duplicate)", len(dl) == 1 or refused, "%s: %d deliveries, returns %r" % (label, len(dl), out.value))
                     if dl:
                         obj = dl[0].data[1]
                         h = out.state.heap[obj.ident].fields.get("header") if isinstance(obj, Ref) else None
@@ -195,7 +201,7 @@ def run(ck):
                             any("frame.header.reserved" in net.base_deps(x) for x in e.data[1]) and any(const_of(norm(x)) == rv.v for x in e.data[1]) for e in out.trace))
                         agg.add("R06.7", f, "the delivered frame's type is the LAST fragment's reserved byte", okt, "%s: delivered type %r" % (label, mt))
                         agg.add("R06.5", f, "the delivered frame is a copy of the cache", isinstance(obj, Ref) and obj.ident != cache.ident and obj.ident != frame.ident, "delivers %r" % (obj,))
-                        completed_states.append((out.state, q, frame))
+                        pass
                 elif kind == "MORE":
                     agg.add("R06.7", f, "a MORE fragment delivers nothing yet", not dl and value_matches(out.value, True), "%s: delivered=%d returns %r" % (label, len(dl), out.value))
     # R06.2 for LAST: the cached counter must decide whether the message completes
@@ -204,7 +210,13 @@ def run(ck):
             "with the middle fragments lost is delivered as a complete message" % sorted(map(str, last_pols)))
     # R06.4 completion consumes the cache: from every completed state no fragment may be spliced / delivered again
     nre = 0
-    for st0, q, frame in completed_states[:4]:
+    seen_kinds = set()
+    picked = []
+    for item in completed_states:
+        if item[3] not in seen_kinds or len(picked) < 4:
+            seen_kinds.add(item[3])
+            picked.append(item)
+    for st0, q, frame, accepted in picked[:6]:
         for kind, typ in (("MORE", K["MSG_FRAG_MORE"]), ("LAST", K["MSG_FRAG_LAST"])):
             nre += 1
             st = st0.fork()
@@ -221,9 +233,12 @@ def run(ck):
                     continue
                 if (isinstance(c0, Ref) and splices(out, c0)) or deliveries(out, qf):
                     bad.append(out)
-            agg.add("R06.4", f, "after a message is completed, further %s fragments are dropped until a new FIRST arrives" % kind, not bad,
+            agg.add("R06.4", f, "after a message is completed%s, further %s fragments are dropped until a new FIRST arrives" % ("" if accepted else " but refused by the queue (full / duplicate)", kind), not bad,
                     "a %s fragment received after the message was delivered is spliced onto the already delivered bytes%s: the cache is not invalidated on completion, "
                     "so a repeated LAST fragment delivers the message a second time with its tail doubled" % (kind, " and delivered again" if kind == "LAST" else ""))
+    # sender side of R06.7: numbering, type in the last fragment, type restored on every exit (shared with C11/R11.6)
+    from . import c11
+    c11.fragment_loop(ck, agg, rule="R06.7")
     agg.flush()
     ck.floor("R06", "fragment kinds x cache states", nsc, 5)
     ck.floor("R06.4", "re-delivery scenarios after completion", nre, 2)
